@@ -44,112 +44,115 @@ def run(ctx):
         T = tbl(f)
         W = term(sorted(w.items()))
         cn = F.gen_connectors(rng, f)
-        x = F.mk_neuron(f, connectors=cn)
-        prev_conn = sorted((int(c), int(n)) for c, n in zip(cn.connector_id.values, cn.node_id.values)) if cn is not None else []
-        nt = F.nontrivial(f)
-        kind = str(rng.choice(['twigs', 'twigs', 'exact', 'strahler', 'strahler', 'depth', 'longest']))
-        desc = dict(forest=f, lattice=lattice, op=kind)
-        size = float(rng.integers(0, 12)) + 0.5 if lattice else float(rng.uniform(0.1, 40))
-        if kind == 'twigs':
-            rec = [False, True, 1, 2][int(rng.integers(4))]
-            use_mask = rng.random() < 0.35
-            mask = None
-            if use_mask:
-                # union of whole twigs (computed by a throw-away walk) + random non-twig nodes
-                par = dict(zip(ids, f['parents']))
-                nch = {i: 0 for i in ids}
-                for p in f['parents']:
-                    if p >= 0:
-                        nch[p] += 1
-                tw_nodes, mask = set(), set()
-                for i in ids:
-                    if nch[i] == 0 and par[i] >= 0:
-                        tw, j = [], i
-                        while j >= 0 and nch[j] < 2:
-                            tw.append(j)
-                            j = par[j]
-                        if j >= 0:
-                            tw_nodes.update(tw)
-                            if rng.random() < 0.5:
-                                mask.update(tw)
-                mask.update(i for i in ids if i not in tw_nodes and rng.random() < 0.5)
-                mask = sorted(mask)
-            p = dict(size=size, recursive=rec, mask=mask)
-            desc.update(params=p)
-            marg = None if mask is None else (np.array(mask, dtype=np.int64) if rng.random() < 0.5 or not mask else np.isin(x.nodes.node_id.values, mask))
-            if mask is not None and len(mask) == 0:
-                marg = np.zeros(len(ids), dtype=bool)
-            st, res = guarded(navis.prune_twigs, x, size=size, recursive=rec, mask=marg, inplace=bool(rng.integers(2)))
-            rounds = 'None' if rec is True else '(Some %d%%nat)' % (0 if rec is False else int(rec))
-            mterm = 'None' if mask is None else '(Some %s)' % term(mask)
-            jobs.append(dict(desc=desc, nt=nt, key=(str(f['ids']), str(f['xyz']), kind, str(p)),
-                             exprs=['out (prune_twigs %s %s %s %s %s)' % (rounds, T, W, term(Fraction(size)), mterm)],
-                             cmp=_cmp_table(st, res, x)))
-        elif kind == 'exact':
-            p = dict(size=size)
-            desc.update(params=p)
-            orig = {int(i): np.array(c, dtype=float) for i, c in zip(ids, f['xyz'])}
-            st, res = guarded(navis.prune_twigs, x, size=size, exact=True, inplace=False)
-            jobs.append(dict(desc=desc, nt=nt, key=(str(f['ids']), str(f['xyz']), kind, str(p)),
-                             exprs=['map (fun p => (fst p, qout (snd p))) (exact_plan %s %s %s)' % (T, W, term(Fraction(size)))],
-                             cmp=_cmp_exact(st, res, orig, dict(zip(ids, f['parents'])))))
-        elif kind == 'strahler':
-            sel_kind = int(rng.integers(4))
-            if sel_kind == 0:
-                k = int(rng.integers(-4, 5))
-                arg, sel = k, 'SInt %s' % term(k)
-            elif sel_kind == 1:
-                l = sorted(set(int(v) for v in rng.integers(1, 5, size=int(rng.integers(1, 3)))))
-                arg, sel = l, 'SList %s' % term(l)
-            elif sel_kind == 2:
-                a = int(rng.integers(1, 4)); b = a + int(rng.integers(0, 3))
-                arg, sel = range(a, b), 'SRange %s %s' % (term(a), term(b))
+        be = str(rng.choice(['fastcore', 'fastcore', 'fastcore', 'igraph', 'nx']))
+        ctx.count('backend:' + be)
+        with F.backend(be):
+            x = F.mk_neuron(f, connectors=cn)
+            prev_conn = sorted((int(c), int(n)) for c, n in zip(cn.connector_id.values, cn.node_id.values)) if cn is not None else []
+            nt = F.nontrivial(f)
+            kind = str(rng.choice(['twigs', 'twigs', 'exact', 'strahler', 'strahler', 'depth', 'longest']))
+            desc = dict(forest=f, lattice=lattice, op=kind, backend=be)
+            size = float(rng.integers(0, 12)) + 0.5 if lattice else float(rng.uniform(0.1, 40))
+            if kind == 'twigs':
+                rec = [False, True, 1, 2][int(rng.integers(4))]
+                use_mask = rng.random() < 0.35
+                mask = None
+                if use_mask:
+                    # union of whole twigs (computed by a throw-away walk) + random non-twig nodes
+                    par = dict(zip(ids, f['parents']))
+                    nch = {i: 0 for i in ids}
+                    for p in f['parents']:
+                        if p >= 0:
+                            nch[p] += 1
+                    tw_nodes, mask = set(), set()
+                    for i in ids:
+                        if nch[i] == 0 and par[i] >= 0:
+                            tw, j = [], i
+                            while j >= 0 and nch[j] < 2:
+                                tw.append(j)
+                                j = par[j]
+                            if j >= 0:
+                                tw_nodes.update(tw)
+                                if rng.random() < 0.5:
+                                    mask.update(tw)
+                    mask.update(i for i in ids if i not in tw_nodes and rng.random() < 0.5)
+                    mask = sorted(mask)
+                p = dict(size=size, recursive=rec, mask=mask)
+                desc.update(params=p)
+                marg = None if mask is None else (np.array(mask, dtype=np.int64) if rng.random() < 0.5 or not mask else np.isin(x.nodes.node_id.values, mask))
+                if mask is not None and len(mask) == 0:
+                    marg = np.zeros(len(ids), dtype=bool)
+                st, res = guarded(navis.prune_twigs, x, size=size, recursive=rec, mask=marg, inplace=bool(rng.integers(2)))
+                rounds = 'None' if rec is True else '(Some %d%%nat)' % (0 if rec is False else int(rec))
+                mterm = 'None' if mask is None else '(Some %s)' % term(mask)
+                jobs.append(dict(desc=desc, nt=nt, key=(str(f['ids']), str(f['xyz']), kind, str(p)),
+                                 exprs=['(out (prune_twigs %s %s %s %s %s), partial_mask_met %s %s %s %s %s)' % ((rounds, T, W, term(Fraction(size)), mterm) * 2)],
+                                 cmp=_cmp_table(st, res, x)))
+            elif kind == 'exact':
+                p = dict(size=size)
+                desc.update(params=p)
+                orig = {int(i): np.array(c, dtype=float) for i, c in zip(ids, f['xyz'])}
+                st, res = guarded(navis.prune_twigs, x, size=size, exact=True, inplace=False)
+                jobs.append(dict(desc=desc, nt=nt, key=(str(f['ids']), str(f['xyz']), kind, str(p)),
+                                 exprs=['map (fun p => (fst p, qout (snd p))) (exact_plan %s %s %s)' % (T, W, term(Fraction(size)))],
+                                 cmp=_cmp_exact(st, res, orig, dict(zip(ids, f['parents'])))))
+            elif kind == 'strahler':
+                sel_kind = int(rng.integers(4))
+                if sel_kind == 0:
+                    k = int(rng.integers(-4, 5))
+                    arg, sel = k, 'SInt %s' % term(k)
+                elif sel_kind == 1:
+                    l = sorted(set(int(v) for v in rng.integers(1, 5, size=int(rng.integers(1, 3)))))
+                    arg, sel = l, 'SList %s' % term(l)
+                elif sel_kind == 2:
+                    a = int(rng.integers(1, 4)); b = a + int(rng.integers(0, 3))
+                    arg, sel = range(a, b), 'SRange %s %s' % (term(a), term(b))
+                else:
+                    a = [None, 0, 1, -1, -2, 2][int(rng.integers(6))]; b = [None, -1, 1, 2, 3, -2][int(rng.integers(6))]
+                    arg = slice(a, b)
+                    sel = 'SSlice %s %s' % ('None' if a is None else '(Some %s)' % term(a), 'None' if b is None else '(Some %s)' % term(b))
+                reloc = bool(rng.integers(2))
+                p = dict(to_prune=str(arg), relocate_connectors=reloc)
+                desc.update(params=p)
+                st_si, si = guarded(lambda: {int(i): int(s) for i, s in zip(*[navis.strahler_index(x.copy()).nodes[c].values for c in ('node_id', 'strahler_index')])})
+                st, res = guarded(navis.prune_by_strahler, x, to_prune=arg, reroot_soma=False, force_strahler_update=True,
+                                  relocate_connectors=reloc, inplace=bool(rng.integers(2)))
+                SI = '(strahler_all false [] %s)' % T
+                maxsi = '(zmaxl (map snd %s))' % SI
+                jobs.append(dict(desc=desc, nt=nt, key=(str(f['ids']), str(f['parents']), kind, str(p)),
+                                 exprs=[SI,
+                                        'match selected (%s) %s with Some s => Some (out (prune_by_si %s %s s)) | None => None end' % (sel, maxsi, T, SI),
+                                        'match selected (%s) %s with Some s => relocate_connectors %s (ids (prune_by_si %s %s s)) %s | None => [] end'
+                                        % (sel, maxsi, T, T, SI, term(prev_conn))],
+                                 cmp=_cmp_strahler(st, res, x, (st_si, si), reloc, prev_conn)))
+            elif kind == 'depth':
+                src = int(ids[int(rng.integers(len(ids)))]) if rng.random() < 0.6 else None
+                p = dict(depth=size, source=src)
+                desc.update(params=p)
+                st, res = guarded(navis.prune_at_depth, x, depth=size, source=src, inplace=bool(rng.integers(2)))
+                src_m = src if src is not None else int(x.root[0])
+                jobs.append(dict(desc=desc, nt=nt, key=(str(f['ids']), str(f['xyz']), kind, str(p)),
+                                 exprs=['out (prune_at_depth %s %s %s %s)' % (T, W, term(src_m), term(Fraction(size)))],
+                                 cmp=_cmp_table(st, res, x)))
             else:
-                a = [None, 0, 1, -1, -2, 2][int(rng.integers(6))]; b = [None, -1, 1, 2, 3, -2][int(rng.integers(6))]
-                arg = slice(a, b)
-                sel = 'SSlice %s %s' % ('None' if a is None else '(Some %s)' % term(a), 'None' if b is None else '(Some %s)' % term(b))
-            reloc = bool(rng.integers(2))
-            p = dict(to_prune=str(arg), relocate_connectors=reloc)
-            desc.update(params=p)
-            st_si, si = guarded(lambda: {int(i): int(s) for i, s in zip(*[navis.strahler_index(x.copy()).nodes[c].values for c in ('node_id', 'strahler_index')])})
-            st, res = guarded(navis.prune_by_strahler, x, to_prune=arg, reroot_soma=False, force_strahler_update=True,
-                              relocate_connectors=reloc, inplace=bool(rng.integers(2)))
-            SI = '(strahler_all false [] %s)' % T
-            maxsi = '(zmaxl (map snd %s))' % SI
-            jobs.append(dict(desc=desc, nt=nt, key=(str(f['ids']), str(f['parents']), kind, str(p)),
-                             exprs=[SI,
-                                    'match selected (%s) %s with Some s => Some (out (prune_by_si %s %s s)) | None => None end' % (sel, maxsi, T, SI),
-                                    'match selected (%s) %s with Some s => relocate_connectors %s (ids (prune_by_si %s %s s)) %s | None => [] end'
-                                    % (sel, maxsi, T, T, SI, term(prev_conn))],
-                             cmp=_cmp_strahler(st, res, x, (st_si, si), reloc, prev_conn)))
-        elif kind == 'depth':
-            src = int(ids[int(rng.integers(len(ids)))]) if rng.random() < 0.6 else None
-            p = dict(depth=size, source=src)
-            desc.update(params=p)
-            st, res = guarded(navis.prune_at_depth, x, depth=size, source=src, inplace=bool(rng.integers(2)))
-            src_m = src if src is not None else int(x.root[0])
-            jobs.append(dict(desc=desc, nt=nt, key=(str(f['ids']), str(f['xyz']), kind, str(p)),
-                             exprs=['out (prune_at_depth %s %s %s %s)' % (T, W, term(src_m), term(Fraction(size)))],
-                             cmp=_cmp_table(st, res, x)))
-        else:
-            if lattice:
-                continue   # ties between equally long neurites are not ordered by the property
-            nseg = int(rng.integers(1, 4))
-            use_slice = rng.random() < 0.3
-            inverse = bool(rng.random() < 0.3)
-            if use_slice:
-                lo = int(rng.integers(0, 2)); hi = lo + int(rng.integers(1, 3))
-                arg = slice(lo, hi)
-            else:
-                lo, hi, arg = 0, nseg, nseg
-            p = dict(n=str(arg), inverse=inverse)
-            desc.update(params=p)
-            # isolated nodes are zero-length segments whose mutual order is unspecified: skip when they would be selected
-            st, res = guarded(navis.longest_neurite, x, n=arg, reroot_soma=False, from_root=True, inverse=inverse, inplace=bool(rng.integers(2)))
-            jobs.append(dict(desc=desc, nt=nt, key=(str(f['ids']), str(f['xyz']), kind, str(p)),
-                             exprs=['(out (longest_neurite %s %s %d%%nat %d%%nat %s), map (fun s => qout (seg_length %s s)) (long_segments %s %s))'
-                                    % (T, W, lo, hi, term(inverse), W, T, W)],
-                             cmp=_cmp_longest(st, res, x, lo, hi)))
+                if lattice:
+                    continue   # ties between equally long neurites are not ordered by the property
+                nseg = int(rng.integers(1, 4))
+                use_slice = rng.random() < 0.3
+                inverse = bool(rng.random() < 0.3)
+                if use_slice:
+                    lo = int(rng.integers(0, 2)); hi = lo + int(rng.integers(1, 3))
+                    arg = slice(lo, hi)
+                else:
+                    lo, hi, arg = 0, nseg, nseg
+                p = dict(n=str(arg), inverse=inverse)
+                desc.update(params=p)
+                # isolated nodes are zero-length segments whose mutual order is unspecified: skip when they would be selected
+                st, res = guarded(navis.longest_neurite, x, n=arg, reroot_soma=False, from_root=True, inverse=inverse, inplace=bool(rng.integers(2)))
+                jobs.append(dict(desc=desc, nt=nt, key=(str(f['ids']), str(f['xyz']), kind, str(p)),
+                                 exprs=['(out (longest_neurite %s %s %d%%nat %d%%nat %s), map (fun s => qout (seg_length %s s)) (long_segments %s %s))'
+                                        % (T, W, lo, hi, term(inverse), W, T, W)],
+                                 cmp=_cmp_longest(st, res, x, lo, hi)))
     flat = [e for j in jobs for e in j['exprs']]
     res = coqio.eval_terms('C12', ['model.Forest', 'model.Dist', 'model.Segments', 'model.Prune', 'model.Strahler'], flat, shard=100)
     pos = 0
@@ -172,7 +175,11 @@ def _cmp_table(st, res, x):
             ctx.violation('%s raised' % desc['op'], desc, res)
             return
         got = _rows(res)
-        exp = [tuple(a) for a in r[0]]
+        partial = False
+        rows0 = r[0]
+        if isinstance(rows0, tuple) and len(rows0) == 2 and isinstance(rows0[1], bool):
+            rows0, partial = rows0        # (table, some pruning round met a terminal branch only partly inside the mask)
+        exp = [tuple(a) for a in rows0]
         if sorted(a for a, _ in got) != sorted(a for a, _ in exp):
             diff = set(a for a, _ in got) ^ set(a for a, _ in exp)
             key = None
@@ -191,6 +198,8 @@ def _cmp_table(st, res, x):
                 branched_roots = set(root_of(i) for i in f['ids'] if nch.get(i, 0) >= 2)
                 if all(root_of(i) not in branched_roots for i in diff):
                     key = 'C12:twigs-mask-unbranched-fragment'
+                elif partial:
+                    key = 'C12:twigs-mask-partial-twig'
             ctx.violation('%s does not keep exactly the nodes its criterion defines' % desc['op'], desc,
                           dict(impl_only=sorted(set(a for a, _ in got) - set(a for a, _ in exp)), model_only=sorted(set(a for a, _ in exp) - set(a for a, _ in got))), key=key)
         elif got != exp:
